@@ -24,6 +24,9 @@ FINISH = dict(level="proof",
               rule="cases = (loss, eval|deriv, batch of dyadic labels/predictions); exact-closed losses in rat mode, exp/log/sqrt losses in "
                    "float mode; distinct = distinct op text; non-trivial = batch with >= 2 rows and at least one active and one inactive hinge/branch")
 LAKE_TARGETS = ["SharkVerif.Props.C06", "drv_c06"]
+# Props/C06.lean states the property; the composition lemmas it imports are obligations of their own
+PROOF_MODULES = ["SharkVerif.Props.C06", "SharkVerif.Lemmas.ErrFn", "SharkVerif.Lemmas.ErrFn2", "SharkVerif.Lemmas.LossCurve1",
+                 "SharkVerif.Lemmas.LossCurve2", "SharkVerif.Lemmas.LossSecond", "SharkVerif.Lemmas.LossContract"]
 SRC = ["src/Core/Random.cpp", "src/ObjectiveFunctions/DiscreteLoss.cpp"]
 EXACT = ["squared", "squaredclass", "hinge", "sqhinge", "epshinge", "sqepshinge", "zeroone"]
 FLOATY = ["crossentropy", "crossentropysoft", "huber", "absolute", "squared", "hinge", "sqhinge", "epshinge"]
@@ -204,7 +207,7 @@ def gen_cost_case(r, ctx):
 
 
 def gen_auc_case(r, ctx, op):
-    sizes = gen_sizes(r, ctx, "auc"); n = sum(sizes)
+    sizes = gen_sizes(r, ctx, "auc", allow_empty_batch=False); n = sum(sizes)   # Data::element(i) cannot step over an empty batch (see findings_proposed/C06.md, O1)
     kind = r.choice(["random", "ties", "all-tied", "separable", "one-class"])
     labs = [r.below(2) for _ in range(n)]
     if kind != "one-class" and n >= 2:
@@ -280,9 +283,9 @@ def run(ctx):
     ctx.assumptions += ["exact arithmetic in the theorems; rounding enters only through the correspondence",
                         "labels of classification losses are < number of outputs (the C++ RANGE_CHECKs)"]
     translate(ctx)
-    ctx.prove(["SharkVerif.Props.C06"])
+    ctx.prove(PROOF_MODULES)
     if not ctx.quick:
-        ctx.leanchecker(["SharkVerif.Props.C06"])
+        ctx.leanchecker(PROOF_MODULES)
     exe = build(ctx); drv = ctx.driver("drv_c06")
     if not exe:
         return
